@@ -326,8 +326,9 @@ type InstanceResult struct {
 	Problems  []Problem
 	Rejected  int // scripted reports the reference rejects (sequential order)
 	Late      bool
-	NoReport  bool // host is no status Reporter (scripted reports are documented no-ops)
-	BeyondBuf bool // shared, attached late, after more reports than sharedcomponent's replay buffer (5) holds
+	NoReport  bool    // host is no status Reporter (scripted reports are documented no-ops)
+	BeyondBuf bool    // shared, attached late, after more reports than sharedcomponent's replay buffer (5) holds
+	Last5     []Phase // BeyondBuf: what the known defect C11-a predicts (replay of exactly the last 5 reports)
 }
 
 // Problem is one refutation found by Verify.
@@ -633,6 +634,13 @@ func rest(ths [][]S) [][]S {
 // reports its lifecycle and every scripted report to each instance attached to it and replays what was
 // reported so far to an instance that attaches later).
 func (w *World) model(m *member, serviceStarted bool) (phases []Phase, late bool) {
+	return w.modelOpt(m, serviceStarted, 0)
+}
+
+// modelOpt with replayCap > 0 is not the reference but the prediction of the KNOWN defect C11-a: an
+// instance attached late is replayed only the last replayCap reports made through the shared host before
+// it attached (sharedcomponent's ring of 5 remembers every report, illegal and no-op ones included).
+func (w *World) modelOpt(m *member, serviceStarted bool, replayCap int) (phases []Phase, late bool) {
 	c := m.owner
 	sc := &c.spec.Script
 	if c.noReporter {
@@ -691,8 +699,12 @@ func (w *World) model(m *member, serviceStarted bool) (phases []Phase, late bool
 		return phases, false
 	}
 	late = m != firstStart
-	phases = append(phases, Seq(A(Starting)))                                             // graph
-	phases = append(phases, Seq(append([]Input{A(Starting)}, in(first(sc.Start))...)...)) // wrapper's Starting + inline reports (direct or replayed)
+	phases = append(phases, Seq(A(Starting)))                      // graph
+	before := append([]Input{A(Starting)}, in(first(sc.Start))...) // wrapper's Starting + inline reports (direct or replayed)
+	if late && replayCap > 0 && len(before) > replayCap {
+		before = before[len(before)-replayCap:]
+	}
+	phases = append(phases, Seq(before...))
 	if sc.StartErr {
 		phases = append(phases, append(ins(rest(sc.Start)), []Input{A(Perm), A(Perm)}))
 	} else {
@@ -772,6 +784,9 @@ func (w *World) collect(res *Result) {
 			ir.Phases, ir.Late = w.model(m, serviceStarted)
 			ir.NoReport = c.noReporter
 			ir.BeyondBuf = ir.Late && 1+len(first(c.spec.Script.Start)) > 5
+			if ir.BeyondBuf {
+				ir.Last5, _ = w.modelOpt(m, serviceStarted, 5)
+			}
 			_, ir.Rejected = Expected(ir.Phases)
 			s := byKey[m.key]
 			ir.Delivered = make([][]S, len(w.watchers))
@@ -839,11 +854,17 @@ func (w *World) verify(ir *InstanceResult, c *scripted, d []Delivered, wi int) {
 	if ir.Late {
 		kind += "/late"
 	}
-	replay := "n/a"
+	replay, explained := "n/a", "n/a"
 	if ir.Late {
 		replay = "within-buffer"
 		if ir.BeyondBuf {
 			replay = "beyond-buffer"
+			// the known defect explains exactly one wrong history: the reference machine fed with the last 5
+			// reports made before the attachment, then everything that was reported later
+			explained = "no"
+			if exp, _ := Expected(ir.Last5); fmt.Sprint(exp) == fmt.Sprint(seq) {
+				explained = "last5"
+			}
 		}
 	}
 	// 1. the statement's path rules on the delivered sequence alone
@@ -889,7 +910,7 @@ func (w *World) verify(ir *InstanceResult, c *scripted, d []Delivered, wi int) {
 		if ir.Mode == "conc" {
 			ir.Problems = append(ir.Problems, Problem{"fsm-interleaving", what, []string{"kind", kind, "mode", ir.Mode}})
 		} else {
-			ir.Problems = append(ir.Problems, Problem{"fsm-equality", what, []string{"kind", kind, "mode", ir.Mode, "replay", replay, "state", st, "want", want, "got", got}})
+			ir.Problems = append(ir.Problems, Problem{"fsm-equality", what, []string{"kind", kind, "mode", ir.Mode, "replay", replay, "explained", explained, "state", st, "want", want, "got", got}})
 		}
 	}
 }
